@@ -22,6 +22,10 @@ def _h(x: Any) -> str:
 
 def projection(cp) -> Dict[str, Any]:
     g = project_graph(cp)
+    # the event -> (start node, end node) maps are part of the graph object (overlay, attribution and what-if code go through them)
+    def _ix(n):
+        return None if n is None else int(n.idx)
+    g["event_nodes"] = [[int(e)] + [_ix(n) for n in cp.get_nodes_for_event(int(e))] for e in sorted(int(x) for x in cp.trace_df["index"])]
     p = project_path(cp)
     p["pedges"] = sorted(p["pedges"])
     with contextlib.redirect_stdout(io.StringIO()):
@@ -124,7 +128,7 @@ class C19(Prop):
                 try:
                     if st["op"] == "save":
                         nsave += 1
-                        zips[st["s"]] = live.save(os.path.join(d, f"slot{st['s']}"))         # the same directory name every time the slot is written
+                        zips[st["s"]] = live.save(os.path.join(d, f"cp_graph.slot{st['s']}"))         # the same directory name every time the slot is written
                         rec["obs"] = projection(live)
                     elif st["op"] == "restore":
                         restored[st["s"]] = restore_cpgraph(zips[st["s"]], ta.t, r)
@@ -137,7 +141,7 @@ class C19(Prop):
                         rec["obs"] = projection(restored[st["s"]])
                     elif st["op"] == "save_restored":
                         nsave += 1
-                        zips[st["t"]] = restored[st["s"]].save(os.path.join(d, f"slot{st['t']}"))
+                        zips[st["t"]] = restored[st["s"]].save(os.path.join(d, f"cp_graph.slot{st['t']}"))
                         rec["obs"] = projection(restored[st["s"]])
                     elif st["op"] == "reweight":
                         for u, v in list(live.edges):
